@@ -114,13 +114,16 @@ type c17Round struct {
 }
 
 type C17Scenario struct {
-	Platform    string     `json:"platform"`
-	MaxComments int        `json:"max_comments"`
-	ShowDups    bool       `json:"show_dups"`
-	PerPage     int        `json:"per_page"` // page size of the platform's listings (GitLab paginates discussions)
-	MRs         int        `json:"mrs"`      // GitLab: open merge requests of the branch (each one is a destination)
-	Base        []c17File  `json:"base"`     // content of main
-	Rounds      []c17Round `json:"rounds"`
+	// Sched orders requests that are in flight at the same time (the reporters ask one thing at a
+	// time today, so the tape only matters for code that starts to overlap its requests)
+	Sched       detsim.SchedConfig `json:"sched"`
+	Platform    string             `json:"platform"`
+	MaxComments int                `json:"max_comments"`
+	ShowDups    bool               `json:"show_dups"`
+	PerPage     int                `json:"per_page"` // page size of the platform's listings (GitLab paginates discussions)
+	MRs         int                `json:"mrs"`      // GitLab: open merge requests of the branch (each one is a destination)
+	Base        []c17File          `json:"base"`     // content of main
+	Rounds      []c17Round         `json:"rounds"`
 }
 
 func drawC17File(rt *rapid.T, path string, minRules int) c17File {
@@ -151,6 +154,7 @@ func drawC17(rt *rapid.T) C17Scenario {
 	for i := 0; i < nf; i++ {
 		sc.Base = append(sc.Base, drawC17File(rt, paths[i], 0))
 	}
+	sc.Sched = detsim.DrawSched(rt, 40)
 	nr := rapid.IntRange(1, detsim.Scale(5, 8)).Draw(rt, "rounds")
 	faulty := rapid.IntRange(0, 9).Draw(rt, "faulty") >= 4
 	for r := 0; r < nr; r++ {
@@ -465,6 +469,9 @@ func runC17(t *testing.T, sc C17Scenario, record bool) *detsim.Outcome {
 			nw := simnet.New()
 			simnet.Use(nw)
 			t0 := time.Now()
+			sched := detsim.NewSched(sc.Sched, false, detsim.States)
+			forge.Yield = sched.Yield
+			sched.Start()
 			srv := forge.Serve(nw, "forge.sim:80")
 			var commenter Commenter
 			switch sc.Platform {
@@ -483,6 +490,9 @@ func runC17(t *testing.T, sc C17Scenario, record bool) *detsim.Outcome {
 			}
 			runErr = Submit(context.Background(), summary, commenter, sc.ShowDups)
 			simNs += int64(time.Since(t0))
+			sched.Stop()
+			forge.Yield = nil
+			out.Sched.Decisions += sched.Decisions()
 			_ = srv.Close()
 			nw.Close()
 		})
@@ -491,7 +501,6 @@ func runC17(t *testing.T, sc C17Scenario, record bool) *detsim.Outcome {
 		}
 		after := forge.Snapshot()
 		calls := forge.CallsOfRound(round)
-		out.Sched.Decisions += len(calls)
 		fired := 0
 		deleteFaulted := false
 		lostAck := false
